@@ -59,7 +59,36 @@ def run_history(ctx, seed):
         SHORT, LONG = 1.0, 40.0
         replaced = []             # sim_ids of connections whose replacement was observed complete
 
+        # bound statements for requests whose EXECUTE the node answers UNPREPARED (kept back until the scenario lets it go): the driver re-prepares
+        # on whatever connection the pool hands out then and retries
+        from sim.scen import uid_query
+        bound = []
+        saved_p_time, pw.ch.p_time = pw.ch.p_time, 0.0       # set-up, not the phase under test: no timeout-vs-answer races here
+        if rng.random() < 0.6:
+            for j in range(rng.randint(1, 3)):
+                u = 1000 + j
+                try:
+                    bound.append((u, session.prepare(uid_query(u)).bind(())))
+                except Exception as e:      # noqa
+                    raise RuntimeError("session.prepare failed on a fresh session: %r" % (e,))
+        info['bound_statements'] = len(bound)
+        pw.ch.p_time = saved_p_time
+
         def send(kind, timeout):
+            if kind == 'unprep':
+                if not bound:
+                    kind = 'hold'
+                else:
+                    u, st = bound.pop()
+                    kinds[u] = 'unprep'
+                    held_unprepared = lambda node, cstate, req, uid: ('hold', node.error(cstate, req, 'unprepared', 'unprepared', query_id=req['query_id'])[1])
+                    plan.set(u, [held_unprepared, 'rows'])
+                    observe_replacement()
+                    started_after[u] = frozenset(replaced)
+                    steps_log.append(('send', u, 'unprep', timeout))
+                    info['unprepared'] = info.get('unprepared', 0) + 1
+                    rec.execute_async(session, u, statement=st, timeout=timeout)
+                    return u
             uid[0] += 1
             u = uid[0]
             kinds[u] = kind
@@ -107,7 +136,7 @@ def run_history(ctx, seed):
                 if o == 't':
                     send(rng.choice(['late', 'silent', 'late']), SHORT)
                 else:
-                    send('hold', LONG)
+                    send(rng.choice(['hold', 'hold', 'unprep']), LONG)
                 if rng.random() < 0.2:
                     world.settle(advance=False)
             world.settle(advance=False)
@@ -117,7 +146,7 @@ def run_history(ctx, seed):
                 # let the timeouts fire one by one with other things in between
                 world.advance_to(world.now + SHORT / 2)
                 if rng.random() < 0.5:
-                    release_some(['hold'])
+                    release_some(['hold', 'unprep'])
                 world.advance_to(world.now + SHORT / 2 + 0.1)
             steps_log.append(('overloaded', [(c.sim_id, c.in_flight, len(c.orphaned_request_ids), c.orphaned_threshold_reached) for c in pw.pool_conns() if not c.is_closed]))
 
@@ -131,9 +160,10 @@ def run_history(ctx, seed):
         def free_step():
             r = rng.random()
             if r < 0.25:
-                send(rng.choice(['rows', 'rows', 'hold']), rng.choice([SHORT, LONG]))
+                k = rng.choice(['rows', 'rows', 'hold', 'unprep'])
+                send(k, LONG if k == 'unprep' else rng.choice([SHORT, LONG]))
             elif r < 0.45:
-                release_some(['hold'], 1)
+                release_some(['hold', 'unprep'], 1)
             elif r < 0.6:
                 release_some(['late'], rng.randint(1, 3))
             elif r < 0.7:
@@ -161,9 +191,13 @@ def run_history(ctx, seed):
                 info['threshold_not_reached'] = info.get('threshold_not_reached', 0) + 1
                 break
             if rng.random() < 0.5:
+                # late answers to some orphaned streams make room on the overloaded connection (it stays marked for replacement)
+                release_some(['late'], rng.randint(1, 3))
+                world.settle(advance=False)
+            if rng.random() < 0.5:
                 pw.hold_handshake[0] = True
             # the borrow that makes the pool notice
-            trigger = send(rng.choice(['rows', 'hold']), LONG)
+            trigger = send(rng.choice(['rows', 'hold', 'unprep']), LONG)
             for _ in range(rng.randint(1, 8)):
                 free_step()
             pw.hold_handshake[0] = False
@@ -190,7 +224,9 @@ def run_history(ctx, seed):
             world.settle(advance=False)
 
         # ---------------- drain: answer everything that is still pending, let every short timeout fire
-        release_some(['hold'], 99)
+        release_some(['hold', 'unprep'], 99)
+        world.settle(advance=False)
+        release_some(['hold', 'unprep'], 99)          # what the retried EXECUTEs / re-prepares left behind
         world.settle(advance=False)
         world.advance_to(world.now + SHORT + 0.5)
         world.settle(advance=False)
@@ -302,6 +338,7 @@ def run(ctx):
         ctx.count("connections_seen_in_trash", info['trashed'])
         ctx.count("pools_checked_alive_after_replacement", info.get('pool_alive_checked', 0))
         ctx.count("late_responses", info['late'])
+        ctx.count("executes_answered_unprepared", info.get('unprepared', 0))
         ctx.count("answers_racing_the_client_timeout", info.get('edge', 0))
         if info.get('timer_thread'):
             ctx.count("histories_with_timeouts_on_a_timer_thread")
